@@ -14,6 +14,7 @@ import hashlib
 import json
 import multiprocessing
 import os
+import re
 import shutil
 import sys
 import time
@@ -106,7 +107,10 @@ def _execute_spec(check, spec, tag):
             out.harness_error = traceback.format_exc()
         return out
     finally:
-        shutil.rmtree(wd, ignore_errors=True)
+        if os.environ.get("VERIF_KEEP"):
+            sys.stderr.write("kept scratch directory %s\n" % wd)
+        else:
+            shutil.rmtree(wd, ignore_errors=True)
 
 
 def _run_index(args):
@@ -171,11 +175,14 @@ def load_findings(pid):
 
 
 def finding_for(findings, key):
+    """The open known finding that lists this violation class, if any.  An entry matches by exact
+    `key`, or -- for a finding recorded as a family -- by the regular expression `regex`.
+    Entries with status "fixed" suppress nothing."""
     for f in findings:
         if f.get("status") != "open":
             continue
-        if f.get("family"):
-            if key.startswith(f["key"]):
+        if f.get("regex"):
+            if re.search(f["regex"], key):
                 return f
         elif f["key"] == key:
             return f
